@@ -461,12 +461,35 @@ pub fn int_subjects(tier: Tier, out: &mut Vec<Subj>) {
     arbitrary_int_subjects(tier, out);
 }
 
+/// bounds that mention a user constant called `MAX` / `MIN` (hygiene of the generated Arbitrary code)
+fn shadow_name_subjects(tier: Tier, out: &mut Vec<Subj>) {
+    let tys: Vec<IntTy> = if tier == Tier::Quick { vec![IntTy::U8, IntTy::I16] } else { vec![IntTy::U8, IntTy::I8, IntTy::I16, IntTy::U16, IntTy::I64, IntTy::U128] };
+    for t in tys {
+        let v = |x: i128| t.val(x).unwrap();
+        let near_max = sub_v(&t.max(), 300.min(if t.bits() == 8 { 100 } else { 300 }));
+        let shapes: Vec<Vec<Vd>> = vec![
+            vec![Vd::GreaterOrEqual(Bound { v: near_max.clone(), form: Form::ShadowMax })],
+            vec![Vd::Greater(Bound { v: v(10), form: Form::ShadowMax }), Vd::Less(Bound { v: v(90), form: Form::Lit })],
+            vec![Vd::LessOrEqual(Bound { v: add_v(&t.min(), 50), form: Form::ShadowMin })],
+            vec![Vd::Less(Bound { v: v(50), form: Form::ShadowMin }), Vd::GreaterOrEqual(Bound { v: v(5), form: Form::ShadowMax })],
+            vec![Vd::GreaterOrEqual(Bound { v: v(7), form: Form::ShadowMin }), Vd::LessOrEqual(Bound { v: v(70), form: Form::ShadowMax })],
+        ];
+        for vs in shapes {
+            let mut d = Decl::new("X", Inner::Int(t));
+            d.validation = Validation::Std(vs);
+            d.derives = vec![Tr::Debug, Tr::Clone, Tr::Copy, Tr::PartialEq, Tr::Eq, Tr::PartialOrd, Tr::Ord, Tr::Arbitrary, Tr::TryFrom, Tr::Into, Tr::Display];
+            out.push(Subj { decl: d, tag: format!("int/{}/arb-shadow-names", t.name()), serde_full: false });
+        }
+    }
+}
+
 pub fn arbitrary_int_subjects(tier: Tier, out: &mut Vec<Subj>) {
+    shadow_name_subjects(tier, out);
     let tys: Vec<IntTy> = match tier {
         Tier::Quick => vec![IntTy::U8, IntTy::I16, IntTy::I32, IntTy::U64],
         Tier::Thorough => ALL_INT.to_vec(),
     };
-    let forms = [Form::Lit, Form::Const, Form::Shl, Form::Plus1, Form::Paren, Form::Minus1, Form::AsCast, Form::Mul2, Form::FnCall, Form::ModPath, Form::Block];
+    let forms = [Form::Lit, Form::Const, Form::Shl, Form::Plus1, Form::Paren, Form::Minus1, Form::AsCast, Form::Mul2, Form::FnCall, Form::ModPath, Form::Block, Form::NotConst];
     let mut n = 0usize;
     for t in tys {
         let v = |x: i128| t.val(x).unwrap();
